@@ -8,6 +8,7 @@ package dkgsim
 import (
 	"fmt"
 	"math/big"
+	"os"
 
 	pdkg "go.dedis.ch/kyber/v4/share/dkg/pedersen"
 
@@ -201,7 +202,7 @@ func runPedersen(t *core.Tape, tier string, info *core.RunInfo, protocol bool) *
 	// counted one packet per sender, so a conflicting second packet is seen by some nodes and not by
 	// others. Most runs keep the triggering behaviours out so that the rest of the space stays explored;
 	// a fixed fraction enables them so the finding is re-confirmed on every check.
-	kfGate := t.Bool("cfg.kf", 120)
+	kfGate := t.Bool("cfg.kf", 120) || os.Getenv("VERIF_KF_ALWAYS") != ""
 	skip := map[string]bool{}
 	if protocol && w.fast && !kfGate {
 		skip["deal-equivocate"], skip["resp-conflicting"] = true, true
